@@ -1,7 +1,17 @@
 (* C18 -- extraction and inclusion tracking find exactly the included files,
-   each once.  This file: the inclusion work list (shell.py:261-298).
-   Only statements; proofs in proofs/IncludeProofs.v. *)
-From YV Require Import PyBase Include IncludeProofs.
+   each once.  Only statements; proofs in proofs/IncludeProofs.v (the
+   inclusion work list, shell.py:261-298) and proofs/ExtractProofs.v (what
+   parse() returns with an extraction list, parser.py:134-176).
+
+   Proved: (1)-(4) the work list, for every finite file system; (5) with an
+   extraction list parse() returns the extracted sequences, glued, and
+   nothing of the main text flow; (6) init_extractions empties the output of
+   every macro and sets the extraction template to the first mandatory
+   argument of exactly the listed macros.  Not proved: that each use of a
+   listed macro in text that is kept appends exactly one sequence (and uses
+   in comments, skipped regions, verbatim none); decided by the generator
+   oracle of harness/props/c18.py and the differential run. *)
+From YV Require Import PyBase Token PState Exec Include IncludeProofs ExtractProofs.
 
 (* (1) for every finite file system, skip predicate and list of files the
    work list terminates within the fuel the model runs it with (cyclic and
@@ -35,10 +45,35 @@ Print Assumptions C18_order_prefix.
 (* (4) without --include: the given files without duplicates and skipped
    names, in the given order *)
 Theorem C18_no_include : forall skip fs fuel todo done,
-  length todo < fuel ->
+  (length todo < fuel)%nat ->
   loop skip fs false fuel todo done = Ok (done ++ dedup skip todo done).
 Proof. exact loop_no_include. Qed.
 Print Assumptions C18_no_include.
+
+(* (5) extraction: the result of parse() is built from the extracted
+   sequences only *)
+Theorem C18_extraction_only : forall T rd fuel st latex define x xs st' toks,
+  parse T rd fuel st latex define (x :: xs) = Ok (st', toks) ->
+  assemble (extracted st') = Ok toks.
+Proof. exact parse_extract_only. Qed.
+Print Assumptions C18_extraction_only.
+
+(* (6) every macro declared so far: same name and arguments, empty
+   replacement, template = first mandatory argument iff listed; listed names
+   that are not declared are added with one mandatory argument *)
+Theorem C18_init_extractions : forall st extr,
+  exists extra,
+    macros (init_extractions st extr) =
+      map (fun e => (fst e,
+             {| m_name := m_name (snd e); m_args := m_args (snd e); m_repl := RToks [];
+                m_defaults := m_defaults (snd e);
+                m_extract := if mem_str (fst e) extr then first_mand (snd e) else [] |}))
+          (macros st) ++ extra
+    /\ Forall (fun e => m_repl (snd e) = RToks [] /\ m_args (snd e) = [AMand]
+                        /\ In (fst e) extr) extra
+    /\ environs (init_extractions st extr) = environs st.
+Proof. exact init_extractions_spec. Qed.
+Print Assumptions C18_init_extractions.
 
 (* non-vacuity: a.tex includes b and a (cycle), b.tex includes c.tex and a;
    c.tex is skipped *)
